@@ -74,7 +74,7 @@ def run(rep):
     rep.assumptions += ['the zarrs Array is the environment: store_chunk(indices, values) writes one whole chunk at chunk-grid position `indices`; store_chunk_subset(indices, subset, values) writes `subset` relative to that chunk; store_array_subset(subset, values) writes at absolute array coordinates; the chunk size of the draw axis equals the buffer size (full_at)',
                         'one chain, one variable; the per-variable buffers are independent']
     rep.outside += ['zarrs I/O, codecs, file system, crash consistency of the store itself', 'the async copy of store_zarr_chunk and the task that queues a write (queue_write)', 'finalisation trimming of event arrays']
-    parts(rep, [lambda: scripts(rep, mir, L, maxlen), lambda: async_flush(rep, mir, L), lambda: sync_chain_storage(rep, mir, L)])
+    parts(rep, [lambda: scripts(rep, mir, L, maxlen), lambda: async_flush(rep, mir, L), lambda: sync_chain_storage(rep, mir, L), lambda: native_zarr(rep)])
 
 def scripts(rep, mir, L, maxlen):
     new = mir.method('SampleBuffer', None, 'new'); push = mir.method('SampleBuffer', None, 'push'); reset = mir.method('SampleBuffer', None, 'reset')
@@ -322,3 +322,21 @@ def sync_chain_storage(rep, mir, L):
     for key, (what, where) in bad.items(): rep.violated('C15.C ' + key, key, '%s %s' % (what, where), model={'where': str(where)})
     if not bad: rep.holds('C15.C sync ZarrChainStorage end to end (chunk size 1-3, 1-%d draws, every warm-up/sampling split, flush after every draw, finalize): every array holds exactly the draws of its phase recorded so far, in order; flush does not change the storage (%d runs, %d flushes)' % (NMAX, nruns, nflush), time.time() - t0)
     rep.cover('C15.C flushes executed', nflush > 0)
+
+
+def native_zarr(rep):
+    """model validation through the real build (not a deciding step): the same seeded two-chain run is stored by the HashMap backend and by the sync
+    Zarr backend (MemoryStore); after finalisation a fresh reader of the Zarr store must see the HashMap values - this exercises the real zarrs
+    store_chunk / store_chunk_subset / store_array_subset semantics that the write-log model of C15.A / C15.C assumes."""
+    from .. import native
+    cases = [(10, 15, 13), (1, 3, 2)] if rep.tier == 'quick' else [(100, 20, 10), (10, 20, 10), (5, 20, 10), (1, 20, 10), (10, 15, 13), (4, 14, 9), (7, 20, 10), (4, 0, 9), (3, 7, 0), (2, 1, 1)]
+    n = 0; bad = []
+    for (c, t, d) in cases:
+        r = native.run_zarr({'chunk': c, 'num_tune': t, 'num_draws': d})
+        if r is None: rep.notes.append('C15.V native Zarr driver unavailable (not built / scratch copy): validation skipped'); return
+        n += 2 * (t + d)
+        if r.get('confirmed'): bad.append(r)
+    rep.validated += n
+    if bad: rep.validation_mismatch += bad; rep.errors.append('C15.V the real sync Zarr backend and the HashMap backend disagree after finalisation: %s' % str(bad[0])[:300])
+    else: rep.notes.append('C15.V %d recorded draws (2 chains, %d (chunk, tune, draws) cases) read back identically from the real sync Zarr backend and the HashMap backend' % (n, len(cases)))
+    rep.cover('C15.V native Zarr-vs-HashMap comparison ran', n > 0)
